@@ -177,8 +177,9 @@ def run_gen(sdir, harness, module, constants, invariants, props, tlc_timeout, la
     if h.returncode != 0 or not os.path.exists(out):
         raise Infra('harness failed rc=%s (%s)' % (h.returncode, label))
     summ = json.load(open(out))
-    if summ.get('infra'):
+    if summ.get('infra') and not summ.get('violations'):
         raise Infra('harness reported: %s' % summ['infra'][:3])
+    # with confirmed violations in hand, unreproduced worker failures are only parts without a verdict
     return st, summ
 
 
